@@ -44,6 +44,10 @@ type pathExec struct {
 	lockDepth int
 	asserted  int
 	pc        []*Term
+	vinfo     map[*Term]*varInfo
+	vecs      map[*Term]*vec
+	domForced int
+	domBoth   int
 }
 
 type Failure struct {
@@ -147,17 +151,36 @@ func (i *Interp) decide(c *Term, fr *frame, what string) bool {
 		ex.taken = append(ex.taken, d)
 		if !d.forced {
 			if d.v == 1 {
-				s.Assert(c)
-				ex.pc = append(ex.pc, c)
+				i.addConstraint(c)
 			} else {
-				nc := i.ts.Not(c)
-				s.Assert(nc)
-				ex.pc = append(ex.pc, nc)
+				i.addConstraint(i.ts.Not(c))
 			}
 		}
 		return d.v == 1
 	}
 	nc := i.ts.Not(c)
+	if nt, nf, exact, ok := i.domCheck(c); ok {
+		if nf == 0 && nt > 0 {
+			ex.taken = append(ex.taken, dec{v: 1, forced: true})
+			ex.domForced++
+			return true
+		}
+		if nt == 0 && nf > 0 {
+			ex.taken = append(ex.taken, dec{v: 0, forced: true})
+			ex.domForced++
+			return false
+		}
+		if exact && nt > 0 && nf > 0 {
+			ex.domBoth++
+			alt := make([]dec, pos+1)
+			copy(alt, ex.taken)
+			alt[pos] = dec{v: 0}
+			i.worker.ex.push(workItem{prefix: alt})
+			ex.taken = append(ex.taken, dec{v: 1})
+			i.addConstraint(c)
+			return true
+		}
+	}
 	v1, _ := s.Check(c, nil)
 	if v1 == Unsat {
 		ex.taken = append(ex.taken, dec{v: 0, forced: true})
@@ -177,8 +200,7 @@ func (i *Interp) decide(c *Term, fr *frame, what string) bool {
 	alt[pos] = dec{v: 0}
 	i.worker.ex.push(workItem{prefix: alt})
 	ex.taken = append(ex.taken, dec{v: 1})
-	s.Assert(c)
-	ex.pc = append(ex.pc, c)
+	i.addConstraint(c)
 	return true
 }
 
@@ -207,14 +229,22 @@ func (i *Interp) concretize(t *Term, lo, hi int, fr *frame) int {
 		d := ex.prefix[pos]
 		ex.taken = append(ex.taken, d)
 		if !d.forced {
-			c := eq(int(d.v))
-			s.Assert(c)
-			ex.pc = append(ex.pc, c)
+			i.addConstraint(eq(int(d.v)))
 		}
 		return int(d.v)
 	}
 	var feas []int
-	if hi-lo <= 16 {
+	if dv, ok := i.domValues(t); ok {
+		for _, k := range dv {
+			if k >= lo && k <= hi {
+				feas = append(feas, k)
+			}
+		}
+		sort.Ints(feas)
+		if len(feas) > 64 {
+			panic(unsupported{"concretize: more than 64 feasible values for " + t.String() + " at " + fr.fi.name})
+		}
+	} else if hi-lo <= 16 {
 		for k := lo; k <= hi; k++ {
 			v, _ := s.Check(eq(k), nil)
 			if v != Unsat {
@@ -266,9 +296,7 @@ func (i *Interp) concretize(t *Term, lo, hi int, fr *frame) int {
 	k := feas[0]
 	ex.taken = append(ex.taken, dec{v: int64(k), forced: len(feas) == 1})
 	if len(feas) > 1 {
-		c := eq(k)
-		s.Assert(c)
-		ex.pc = append(ex.pc, c)
+		i.addConstraint(eq(k))
 	}
 	return k
 }
@@ -310,8 +338,17 @@ func (i *Interp) assume(c value, fr *frame) {
 			d := ex.prefix[pos]
 			ex.taken = append(ex.taken, d)
 			if !d.forced {
-				s.Assert(c)
-				ex.pc = append(ex.pc, c)
+				i.addConstraint(c)
+			}
+			return
+		}
+		if nt, nf, exact, ok := i.domCheck(c); ok && (nt == 0 || nf == 0 || exact) {
+			if nt == 0 {
+				panic(pathEnd{kind: "infeasible", msg: "assume"})
+			}
+			ex.taken = append(ex.taken, dec{v: 1, forced: nf == 0})
+			if nf > 0 {
+				i.addConstraint(c)
 			}
 			return
 		}
@@ -323,8 +360,7 @@ func (i *Interp) assume(c value, fr *frame) {
 			ex.tainted = true
 		}
 		ex.taken = append(ex.taken, dec{v: 1})
-		s.Assert(c)
-		ex.pc = append(ex.pc, c)
+		i.addConstraint(c)
 	}
 }
 
@@ -384,6 +420,8 @@ func (i *Interp) fail(kind, msg, where string, fr *frame) {
 	}
 	if fr != nil {
 		f.Stack = stackOf(fr)
+	} else {
+		f.Stack = i.failStack
 	}
 	panic(failPanic{f})
 }
@@ -448,6 +486,7 @@ func (w *Worker) runPath(h *Harness, prefix []dec) (res pathResult) {
 						res.kind, res.msg = "unsupported", fmt.Sprint(r2)
 					}
 				}()
+				i.failStack = r.stack
 				i.fail("panic", "panic: "+i.panicText(r.v), r.where, nil)
 			}()
 		default:
